@@ -340,6 +340,8 @@ register(PropertySpec(
              "a node put into another node's operand / child slot after construction is linked below it in the graph as well (the reset and the cache invalidation follow the graph)"),
         Rule("REG-SNAPSHOT", _lazy("registry", "rule_reg_snapshot"), 1,
              "the stores of a class and of its subclasses are all read before the first instance is handed out: an evaluation that also constructs instances does not range over its own output"),
+        Rule("EVAL-PARENT-SET", _lazy("binding", "rule_eval_parent_set"), 7,
+             "(shared with C01) what a query answers does not depend on which other query was BUILT with the same condition object last"),
     ],
     explanation="History independence is absence of residue on the shared expression nodes. Decided: where residue is "
                 "written (discovered mechanically from dataclass fields and mutation sites reachable from evaluation "
@@ -859,6 +861,8 @@ register(PropertySpec(
              "what an evaluation leaves in an operand's _eval_parent_ is wiped by the per-evaluation reset (evaluators that tell their operands nothing fall back to the graph parent)"),
         Rule("VARS-COMPLETE", _lazy("subquery", "rule_vars_complete"), 8,
              "the variables of a node are those of every sub-expression it evaluates, of whatever kind; a node counts itself only if it takes several values under one binding"),
+        Rule("EVAL-PARENT-SET", _lazy("binding", "rule_eval_parent_set"), 7,
+             "(shared with C01) for_all tells the universal expression and the condition who evaluates them: a condition object shared with a plain query does not answer with that query's requirements"),
     ],
     explanation="Universal quantification is implemented as a running intersection; that the accumulated set can only "
                 "shrink, is seeded once and is emptied by a value with no satisfying binding is a typestate property of "
